@@ -5,6 +5,7 @@ mod model;
 mod mon;
 mod relgen;
 mod rt;
+mod typed;
 
 use rt::{Ctx, Inflight};
 use std::io::Write;
